@@ -207,9 +207,12 @@ pub fn through_connection(ctx: &Ctx) -> Report {
         let rt = runtime(rng.next());
         let ents = entries.clone();
         let mut erng = rng.fork();
+        let start_id: i32 = match rng.below(3) { 0 => 0, 1 => *rng.pick(&[126, 127, 254, 255, 32_766, 32_767, 65_534, 8_388_607, 16_777_214, i32::MAX - 1]), _ => rng.below(i32::MAX as u64 - 2) as i32 };
         let out = rt.block_on(async move {
             let c = connect();
             let mut ldap = c.ldap;
+            // the entries answer an operation anywhere in the life of a connection
+            ldap.verif_set_last_id(start_id);
             let mut server = c.server;
             let srv = tokio::spawn(async move {
                 if let Some(w) = server.request().await {
